@@ -83,7 +83,8 @@ def validP {L} (steps : List (Step L)) : Bool := steps.all (fun s => validStep s
 
 /-! ### well-formedness of the extracted facts -/
 
-/-- the three switches of `_format_t` (commit 0224102) are on; the pickling tables name T, S, A;
+/-- the three switches of `_format_t` (commit 0224102) are on; `_format_path` is given the root
+    (commit 2a7aadd); the pickling tables name T, S, A;
     `Path.__getitem__` slices the tuple of steps -/
 structure Facts where
   fmt : FmtFacts
@@ -96,7 +97,7 @@ structure Facts where
   deriving Repr
 
 def WF (F : Facts) : Bool :=
-  F.fmt.dunderGuard && F.fmt.tupleEmptyParen && F.fmt.singletonComma &&
+  F.fmt.dunderGuard && F.fmt.tupleEmptyParen && F.fmt.singletonComma && F.fmt.pathRootAware &&
   ["T", "S", "A"].all (fun r => F.getstateRoots.contains r && F.setstateRoots.contains r) &&
   F.getitemViaSteps &&
   F.lenExpr == "(len(self.path_t.__ops__) - 1) // 2" &&
@@ -176,8 +177,8 @@ def seqRef {α} [DecidableEq α] (root : String) (steps : List (String × α)) :
   | .eq oroot other => .bool (decide (root = oroot ∧ steps = other))
   | .startswith oroot other => .bool (decide (root = oroot) && other.isPrefixOf steps)
   | .concat other =>
-    -- Path(p, q): both parts must be rooted at T ('path segment must be path from T')
-    if root = "T" then .path "T" (steps ++ other) else .valueError
+    -- Path(p, q): the first part keeps its root; `q` is rooted at T
+    .path root (steps ++ other)
   | .fromT => .path (if root == "S" then "T" else root) steps
 
 def checkSeq {α} [DecidableEq α] (root : String) (steps : List (String × α)) (op : SeqOp α)
@@ -206,10 +207,20 @@ def observeRepr {L} [BEq (Step L)] (F : Facts) (render : List (Tok L) → String
       | some y => y.root == x.root && y.steps == normSteps x.steps
       | none => false }
 
-/-- the objects the property is about: T expressions rooted at T, S or A; Paths rooted at T -/
+/-- `_t_child` accepts only attribute / item / plain-segment steps on an `A` path -/
+def Step.okOnA {L} : Step L → Bool
+  | .call _ _ | .star | .starstar => false
+  | _ => true
+
+/-- the paths that can be built: an `A`-rooted one has no call / wildcard step
+    (`_t_child` raises BadSpec: 'operation not allowed on A assignment path') -/
+def aOk {L} (root : String) (steps : List (Step L)) : Bool :=
+  root != "A" || steps.all Step.okOnA
+
+/-- the objects the property is about: T expressions and Paths rooted at T, S or A -/
 def validObj {L} : Obj L → Bool
   | .tobj r s => ["T", "S", "A"].contains r && validT s
-  | .pobj r s => r == "T" && validP s
+  | .pobj r s => ["T", "S", "A"].contains r && validP s && aOk r s
 
 /-! ### `glom(t, Path(p, q))` against `glom(glom(t, p), q)` -/
 
